@@ -240,3 +240,24 @@ func funcDecl(p *packages.Package, name string) *ast.FuncDecl {
 	}
 	return nil
 }
+
+// structLitFields evaluates the constant-valued fields of a struct composite literal (non-constant fields map to nil).
+func structLitFields(p *packages.Package, e ast.Expr) (map[string]constant.Value, bool) {
+	cl, ok := e.(*ast.CompositeLit)
+	if !ok {
+		return nil, false
+	}
+	out := map[string]constant.Value{}
+	for _, el := range cl.Elts {
+		kv, ok := el.(*ast.KeyValueExpr)
+		if !ok {
+			return nil, false
+		}
+		k, ok := kv.Key.(*ast.Ident)
+		if !ok {
+			return nil, false
+		}
+		out[k.Name] = constOf(p, kv.Value)
+	}
+	return out, true
+}
